@@ -65,8 +65,12 @@ func TestTableRender(t *testing.T) {
 		}
 	}
 	roots = append(roots, resd{Kind: "c", C: []rval{}}, resd{Kind: "m", M: map[string]rval{}})
-	mids = append(mids, resd{Kind: "nf"})
-	leafs = []resd{{Kind: "m", M: map[string]rval{"k": vals[0]}}, {Kind: "m", M: map[string]rval{"k": vals[3]}}, {Kind: "nf"}}
+	// second level: also empty resources and resources reaching the third level twice
+	mids = append(mids, resd{Kind: "nf"}, resd{Kind: "c", C: []rval{}}, resd{Kind: "m", M: map[string]rval{}},
+		resd{Kind: "c", C: []rval{vals[0], vals[5]}}, resd{Kind: "c", C: []rval{vals[5], vals[5]}},
+		resd{Kind: "m", M: map[string]rval{"k": vals[5], "q": vals[5]}}, resd{Kind: "c", C: []rval{vals[5], vals[3]}})
+	leafs = []resd{{Kind: "m", M: map[string]rval{"k": vals[0]}}, {Kind: "m", M: map[string]rval{"k": vals[3]}}, {Kind: "nf"},
+		{Kind: "c", C: []rval{}}, {Kind: "m", M: map[string]rval{}}, {Kind: "c", C: []rval{vals[4]}}}
 	if full {
 		leafs = nil
 		for _, a := range vals {
